@@ -7,3 +7,12 @@ pub(crate) use bucket_leap_array::*;
 pub(crate) use leap_array::*;
 pub(crate) use metric_bucket::*;
 pub(crate) use sliding_window_metric::*;
+
+#[cfg(sentinel_verif)]
+#[doc(hidden)]
+pub mod verif_export {
+    pub use super::bucket_leap_array::BucketLeapArray;
+    pub use super::leap_array::{BucketWrap, LeapArray};
+    pub use super::metric_bucket::{MetricBucket, MetricTrait};
+    pub use super::sliding_window_metric::SlidingWindowMetric;
+}
